@@ -19,10 +19,13 @@ type c07Case struct {
 	N       int    // nodes needed
 	Fleet   bool
 	Tight   bool // cloud max leaves room for exactly one more node
+	// Taint describes the tainted nodes' state: fresh (tainted 1q ago) | expired (5q ago, past the hard
+	// grace period) | annotated (fresh, the newest one carries the no-delete annotation)
+	Taint string
 }
 
 func (p c07Case) name() string {
-	return fmt.Sprintf("c07.U%dT%dF%d.%s.%s.%s.N%d.fleet%v.tight%v", p.U, p.T, p.F, p.Pattern, p.Order, p.Mode, p.N, p.Fleet, p.Tight)
+	return fmt.Sprintf("c07.U%dT%dF%d.%s.%s.%s.N%d.fleet%v.tight%v.%s", p.U, p.T, p.F, p.Pattern, p.Order, p.Mode, p.N, p.Fleet, p.Tight, p.Taint)
 }
 
 func c07Ages(pattern string, n int) []int {
@@ -90,11 +93,19 @@ func c07Build(p c07Case) *h.Scenario {
 					all[i], all[j] = all[j], all[i]
 				}
 			}
+			firstT := true
 			for _, x := range all {
 				o := sim.NodeOpt{Age: time.Duration(x.age) * Q}
 				switch x.kind {
 				case "t":
 					o.TaintAge = dp(1 * Q)
+					if p.Taint == "expired" {
+						o.TaintAge = dp(5 * Q)
+					}
+					if p.Taint == "annotated" && firstT {
+						o.Annotation = "keep"
+					}
+					firstT = false
 				case "f":
 					o.ForceTaint = true
 				}
@@ -137,7 +148,10 @@ func c07Cases(tier string) []c07Case {
 										if fleet && tier != "thorough" && (pat == "pairs" || ord == "rev") {
 											continue
 										}
-										out = append(out, c07Case{u, t, f, pat, ord, mode, n, fleet, tight})
+										out = append(out, c07Case{u, t, f, pat, ord, mode, n, fleet, tight, "fresh"})
+										if t > 0 && pat == "asc" && ord == "ut" && !fleet {
+											out = append(out, c07Case{u, t, f, pat, ord, mode, n, fleet, tight, "expired"}, c07Case{u, t, f, pat, ord, mode, n, fleet, tight, "annotated"})
+										}
 									}
 								}
 							}
@@ -162,7 +176,7 @@ func init() {
 	register(&Check{
 		ID:    "C07",
 		Level: "model_checking",
-		Rule: "every single-scan case (untainted 1..2, tainted 0..3/4 with ascending/descending/equal/paired creation times, force-tainted empty 0..2 removed earlier in the scan, list orders, restore|up, need 1..5, SetDesiredCapacity|fleet, loose|tight cloud max) explored with every get/update of the untaint loop failing " +
+		Rule: "every single-scan case (untainted 1..2, tainted 0..3/4 with ascending/descending/equal/paired creation times, tainted nodes fresh / already past their grace period / carrying the no-delete annotation, force-tainted empty 0..2 removed earlier in the scan, list orders, restore|up, need 1..5, SetDesiredCapacity|fleet, loose|tight cloud max) explored with every get/update of the untaint loop failing " +
 			"(1 fault quick, 2 thorough); non-trivial = scans whose reference class is up/restore; distinct = (case, class, |U|,|T|,|F|, observed untaints/requests)",
 		Scenarios:       C07Scenarios,
 		ShardByScenario: true,
